@@ -182,6 +182,9 @@ func c08Mutate(r *fw.Rand, doc []byte, other []byte, format string) ([]byte, str
 						break
 					}
 					v := []byte(fw.Pick(r, c08Values))
+					if r.P(1, 4) {
+						v = []byte(fw.Pick(r, []string{" ", "  ", "\t", "\n", " \t "})) // present, but nothing in it
+					}
 					b = append(b[:sp[0]:sp[0]], append(v, b[sp[1]:]...)...)
 					d := len(v) - (sp[1] - sp[0])
 					// the spans that lie wholly behind the replaced one move with the text; those that overlap it (a quote
